@@ -56,6 +56,18 @@ def h_roundtrip(ctx, t, n, twin=False):
     ctx.holds("repack identical", u.pack() == raw)
     ctx.holds("space packet view", tm.to_space_packet().pack() == raw)
     pack_hands_out_fresh_buffers(ctx, tm.pack, refb)
+    kw = dict(service=f["svc"], subservice=f["sub"], timestamp=ts, source_data=data, apid=f["apid"], seq_count=f["sc"],
+              message_counter=f["mc"], space_time_ref=f["tref"], destination_id=f["dest"], packet_version=f["ver"])
+    fresh = PusTm(**kw)
+    ctx.holds("decoded == freshly constructed, never packed", sym_and(u == fresh, fresh == u))
+    apid2 = ctx.int("apid2", 0, 2047)
+    tm3 = PusTm(**kw)
+    tm3.pack()
+    tm3.apid = apid2
+    ref3, _ = ref_tm(ctx, dict(f, apid=apid2), items_of(ts), items_of(data))
+    ctx.holds("space packet view after apid assignment == reference", tm3.to_space_packet().pack() == ctx.bytes_of(ref3))
+    ctx.holds("pack after apid assignment == reference", tm3.pack() == ctx.bytes_of(ref3))
+    decoded_object_owns_its_data(ctx, lambda d: PusTm.unpack(d, t), ref, lambda x: sym_and(x == tm, x.tm_data == data, x.timestamp == ts, x.pack() == raw))
     other1 = bytes(PusTm(service=200, subservice=9, timestamp=bytes(range(t)), source_data=b"\x55" * 5, apid=0x7FF, seq_count=0x3FFF,
                          message_counter=0xFFFF, destination_id=0x1234).pack())
     other2 = bytes(PusTm(service=1, subservice=1, timestamp=bytes(t)).pack())
